@@ -322,3 +322,38 @@ def line_match_language(pattern: str, flags: int):
 def exact_language(pattern: str):
     """Language of a model given as an (unanchored, look-ahead free) regular expression: full match."""
     return _term_seq(list(sp.parse(pattern, 0)), EPS, True)
+
+
+def call_language(pattern: str, flags: int, mode: str):
+    """Language of the strings (no newline) on which `re.<mode>(pattern, s)` succeeds, mode in match / fullmatch / search."""
+    parsed = list(sp.parse(pattern, flags))
+    begin = bool(parsed) and parsed[0][0] is sc.AT and parsed[0][1] in (sc.AT_BEGINNING, sc.AT_BEGINNING_STRING, sc.AT_BEGINNING_LINE)
+    if begin:
+        parsed = parsed[1:]
+    end = bool(parsed) and parsed[-1][0] is sc.AT and parsed[-1][1] in (sc.AT_END, sc.AT_END_STRING, sc.AT_END_LINE)
+    if end:
+        parsed = parsed[:-1]
+    k = EPS if (mode == "fullmatch" or end) else SIGMA_STAR
+    body = _term_seq(parsed, k, True)
+    return body if (begin or mode in ("match", "fullmatch")) else cat(SIGMA_STAR, body)
+
+
+def literal(text: str):
+    return cat_all([chars({ord(c)}) for c in text])
+
+
+def group_then_suffix(pattern: str, flags: int, mode: str, suffix: str) -> bool:
+    """Is the pattern `^?(group 1)<literal suffix>$` so that group 1 of a match is the whole string minus the suffix?"""
+    parsed = list(sp.parse(pattern, flags))
+    if parsed and parsed[0][0] is sc.AT and parsed[0][1] in (sc.AT_BEGINNING, sc.AT_BEGINNING_STRING):
+        parsed = parsed[1:]
+    elif mode == "search":
+        return False
+    if parsed and parsed[-1][0] is sc.AT and parsed[-1][1] in (sc.AT_END, sc.AT_END_STRING):
+        parsed = parsed[:-1]
+    elif mode != "fullmatch":
+        return False
+    if not parsed or parsed[0][0] is not sc.SUBPATTERN or parsed[0][1][0] != 1:
+        return False
+    lits = parsed[1:]
+    return all(op is sc.LITERAL for op, _ in lits) and "".join(chr(av) for _, av in lits) == suffix
